@@ -3,7 +3,8 @@
    get_full_class_name are Gen/JsonResolve.v, regenerated from the source on every run.
    Quantifiers: every value of the grammar (any list nesting, any mix of classes, any payload type P), every world of
    classes, every user to_json/_from_json pair and registered (de)serialiser pair meeting the per-class round-trip
-   hypothesis.  F = [value_ok]: no object's class is defined inside a function ("<locals>" in its qualified name), and every
+   hypothesis.  F = [value_ok]: no object's class is defined inside a function ("<locals>" in its qualified name), none also
+   derives from a builtin type (int, float, str, list, tuple, set: finding C18-d), and every
    class is named by its own tag: the C19 decision table, read on the world, resolves "<module>.<qualified name>" to the
    class itself (module-level classes and classes nested in classes alike, since 70c605d).
    Modelled, not proved: json.loads (json.dumps j) = j ([json_text]).  _resolve_enclosing_class: hand model + source pin. *)
@@ -13,20 +14,20 @@ Import ListNotations.
 Open Scope Z_scope.
 
 Theorem C18_round_trip :
-  forall (P : Type) ufields usplit rser rdeser,
+  forall (P : Type) ufields usplit rser rdeser as_leaf as_items,
     user_round_trip P ufields usplit -> registered_round_trip P rser rdeser ->
     forall (w : world) (v : value P) (fuel : nat),
       value_ok w v = true -> (value_depth v <= fuel)%nat ->
-      round_trip P ufields usplit rser rdeser w fuel v = Some (Return v).
+      round_trip P ufields usplit rser rdeser as_leaf as_items w fuel v = Some (Return v).
 Proof. exact round_trip_ok. Qed.
 
 (* the serialised form of every object is a dict that carries its fully qualified type tag *)
 Theorem C18_tag_present :
-  forall (P : Type) ufields usplit rser rdeser,
+  forall (P : Type) ufields usplit rser rdeser as_leaf as_items,
     user_round_trip P ufields usplit -> registered_round_trip P rser rdeser ->
     forall (w : world) (c : cls) (own : P) (kids : list (value P)),
       ok P w (VObj c own kids) ->
-      exists d, to_json P ufields rser (VObj c own kids) = Return (JObj d) /\
+      exists d, to_json P ufields rser as_leaf as_items (VObj c own kids) = Return (JObj d) /\
                 dict_get d JSON_TYPE_NAME = Some (JStr (qualified_tag c)).
 Proof. exact object_tag. Qed.
 
@@ -34,7 +35,7 @@ Proof. exact object_tag. Qed.
 Theorem C18_sample_round_trip :
   forall (w : world) (v : value jv) (fuel : nat),
     value_ok w v = true -> (value_depth v <= fuel)%nat ->
-    round_trip jv s_ufields s_usplit s_rser s_rdeser w fuel v = Some (Return v).
+    round_trip jv s_ufields s_usplit s_rser s_rdeser s_as_leaf s_as_items w fuel v = Some (Return v).
 Proof. exact sample_round_trip. Qed.
 
 (* what the correspondence check evaluates is covered: inside F the model's answer (value and tags) is the Spec's *)
@@ -52,23 +53,23 @@ Theorem C18_fragment_is_named_classes :
   forall (w : world) (c : cls),
     unique_names w -> In c w -> module_part_ok (c_mod c) = true -> dot_free (c_qual c) -> c_qual c <> [] ->
     enclosing_classes_defined w c -> no_module_named_like_class_path w c ->
-    c_kind c <> KPlain -> is_local c = false -> cls_ok w c = true.
+    c_kind c <> KPlain -> is_local c = false -> c_base c = None -> cls_ok w c = true.
 Proof. exact named_classes_are_ok. Qed.
 
 (* regression examples for the former finding C18-a (fixed by 70c605d): a serialiser class nested in another class now
    round-trips, is not confused with a module-level class of the same __name__, and is tagged with its qualified name *)
 Example C18_regression_nested_class :
   value_ok [c_outer; c_inner] v_inner = true /\
-  round_trip jv s_ufields s_usplit s_rser s_rdeser [c_outer; c_inner] 5 v_inner = Some (Return v_inner).
+  round_trip jv s_ufields s_usplit s_rser s_rdeser s_as_leaf s_as_items [c_outer; c_inner] 5 v_inner = Some (Return v_inner).
 Proof. exact nested_class_round_trips. Qed.
 
 Example C18_regression_nested_shadow :
   value_ok [c_outer; c_inner; c_shadow] v_inner = true /\
-  round_trip jv s_ufields s_usplit s_rser s_rdeser [c_outer; c_inner; c_shadow] 5 v_inner = Some (Return v_inner).
+  round_trip jv s_ufields s_usplit s_rser s_rdeser s_as_leaf s_as_items [c_outer; c_inner; c_shadow] 5 v_inner = Some (Return v_inner).
 Proof. exact nested_class_not_shadowed. Qed.
 
 Example C18_regression_tag_qualified :
-  exists d, to_json jv s_ufields s_rser v_inner = Return (JObj d) /\
+  exists d, to_json jv s_ufields s_rser s_as_leaf s_as_items v_inner = Return (JObj d) /\
             dict_get d JSON_TYPE_NAME = Some (JStr [109; 46; 79; 46; 73]) /\ qualified_tag c_inner = [109; 46; 79; 46; 73].
 Proof. exact nested_class_tag_qualified. Qed.
 
@@ -76,21 +77,40 @@ Proof. exact nested_class_tag_qualified. Qed.
    value of the statement's grammar, but it is refused at to_json (no importable name exists for such a class);
    for every such class, every payload, children and user code: *)
 Theorem C18_refuted_local_class :
-  forall (P : Type) ufields usplit rser rdeser (w : world) (c : cls) (own : P) (kids : list (value P)) (fuel : nat),
-    c_kind c = KSer -> is_local c = true ->
-    round_trip P ufields usplit rser rdeser w fuel (VObj c own kids) = Some (RaiseJ ClassNotSerializableError).
+  forall (P : Type) ufields usplit rser rdeser as_leaf as_items (w : world) (c : cls) (own : P) (kids : list (value P)) (fuel : nat),
+    c_kind c = KSer -> c_base c = None -> is_local c = true ->
+    round_trip P ufields usplit rser rdeser as_leaf as_items w fuel (VObj c own kids) = Some (RaiseJ ClassNotSerializableError).
 Proof. exact local_class_refused. Qed.
 
 Example C18_refuted_local_class_witness :
   in_grammar v_local = true /\
-  round_trip jv s_ufields s_usplit s_rser s_rdeser [c_local] 5 v_local = Some (RaiseJ ClassNotSerializableError).
+  round_trip jv s_ufields s_usplit s_rser s_rdeser s_as_leaf s_as_items [c_local] 5 v_local = Some (RaiseJ ClassNotSerializableError).
 Proof. exact local_class_not_serializable. Qed.
+
+(* outside F -- known finding C18-d: a class that ALSO derives from a builtin type (int / float / str / list / tuple / set).
+   to_json tests isinstance(obj, leaf_types) / list_like_classes before it looks for SubclassJSONSerializer or a registered
+   serialiser, so the object is written as the builtin value it also is and comes back as a plain int / list *)
+Theorem C18_refuted_builtin_base :
+  in_grammar (VObj c_status (JInt 404) [] : value jv) = true /\
+  round_trip jv s_ufields s_usplit s_rser s_rdeser s_as_leaf s_as_items w_base 5 (VObj c_status (JInt 404) []) = Some (Return (VInt 404)) /\
+  in_grammar (VObj c_traj JNull [VInt 1; VInt 2] : value jv) = true /\
+  round_trip jv s_ufields s_usplit s_rser s_rdeser s_as_leaf s_as_items w_base 5 (VObj c_traj JNull [VInt 1; VInt 2])
+  = Some (Return (VList [VInt 1; VInt 2])).
+Proof. exact builtin_base_loses_class. Qed.
+
+(* outside F -- known finding C18-c: a class that is not bound under its qualified name in its module (defined, but not in
+   the world of bindings): types.MappingProxyType = builtins.mappingproxy, name-mangled private nested classes *)
+Theorem C18_refuted_unbound_class :
+  in_grammar (VObj c_unbound (JInt 1) [] : value jv) = true /\
+  round_trip jv s_ufields s_usplit s_rser s_rdeser s_as_leaf s_as_items [c_status] 5 (VObj c_unbound (JInt 1) [])
+  = Some (RaiseJ ClassNotFoundError).
+Proof. exact unbound_class_not_found. Qed.
 
 (* non-vacuity: a value with a subclass chain in a dotted module, a class nested in a class, a registered type, unicode, 2^70, +inf, empty lists
    satisfies F, and its round trip computes to itself *)
 Example C18_nonvacuous :
   value_ok w_sample v_sample = true /\
-  round_trip jv s_ufields s_usplit s_rser s_rdeser w_sample 6 v_sample = Some (Return v_sample) /\
+  round_trip jv s_ufields s_usplit s_rser s_rdeser s_as_leaf s_as_items w_sample 6 v_sample = Some (Return v_sample) /\
   value_ok [c_local] v_local = false.
 Proof. repeat split; vm_compute; reflexivity. Qed.
 
@@ -100,3 +120,5 @@ Print Assumptions C18_sample_round_trip.
 Print Assumptions C18_model_is_spec.
 Print Assumptions C18_fragment_is_named_classes.
 Print Assumptions C18_refuted_local_class.
+Print Assumptions C18_refuted_builtin_base.
+Print Assumptions C18_refuted_unbound_class.
